@@ -111,10 +111,14 @@ def gen(tape: Tape, tier: str) -> dict:
     n = case["array"]["shape"][-1]
     lead = case["array"]["shape"][:-1]
     variants = []
+    labs0 = decode_case(case)[1][0]
+    # blockwise only on layouts meeting its precondition after the automatic rechunk for 1-D labels: sequential
+    # runs without a missing label inside (a missing label splits a run into two runs of the same group, which
+    # the rechunk may leave in different blocks - outside the documented precondition)
+    seq_ok = case["meta"]["pattern"] == "sorted" and not (labs0.dtype.kind == "f" and np.isnan(labs0).any())
     for _ in range(3):
         v = {
-            # blockwise only on layouts meeting its precondition (sequential 1-D labels: automatic rechunk)
-            "method": tape.choice("gen.v.method", [None, None, "map-reduce", "cohorts"] + (["blockwise"] if case["meta"]["pattern"] == "sorted" else [])),
+            "method": tape.choice("gen.v.method", [None, None, "map-reduce", "cohorts"] + (["blockwise"] if seq_ok else [])),
             "reindex": tape.choice("gen.v.reindex", [None, None, True, False]),
             "engine": tape.choice("gen.v.engine", [None, None, "numpy", "flox", "numbagg"]),
             "by_dask": tape.chance("gen.v.bydask", 0.15),
